@@ -934,7 +934,12 @@ def feature_history_ob(fname, und, tag):
             # and the same derivative re-simulated: buffers replaced in place of the old ones
             d.ul().register_buffer('spot', Tensor.input('spot3', (N, T), torch.float64))
             assume_positive_spot(c, 'spot3')
-            fresh1 = get_feature(FEATURES[fname][0]()).of(d)
+            # the reference is a fresh feature on a freshly built TWIN derivative over the same underlier: nothing the used
+            # derivative object may have kept (caches on the instance) can leak into it
+            d_tw = type(d)(d.ul(), call=True, strike=SReal(K))
+            if FEATURES[fname][2]:
+                d_tw.list(lambda dd: dd.ul().spot)
+            fresh1 = get_feature(FEATURES[fname][0]()).of(d_tw)
             return (g.get(SInt(I)), fresh.get(SInt(I)), g.get(None), fresh.get(None), f.get(SInt(I)), fresh1.get(SInt(I)), f.get(None), fresh1.get(None))
         paths = explore(run, hyps + [tm.gt(tm.var('K2'), tm.ZERO), tm.gt(tm.var('sigma2'), tm.ZERO)], max_paths=16)
         n, j = tm.var('n', 'I'), tm.var('j', 'I')
@@ -982,8 +987,10 @@ g = f.of(d2); fresh = new().of(d2)
 for i in range(d2.ul().spot.size(1)):
     if not torch.allclose(g.get(i), fresh.get(i), equal_nan=True): bad.append(("rebound", i))
 if not torch.allclose(g.get(None), fresh.get(None), equal_nan=True): bad.append(("rebound", None))
-d1.simulate(n_paths=3)
-fresh1 = new().of(d1)
+d1.ul().simulate(n_paths=3, time_horizon=0.05)          # re-simulated from outside (through the stock, as another derivative sharing it would)
+tw = EuropeanOption(d1.ul(), strike=1.1, maturity=0.05)     # reference: a freshly built twin derivative on the same stock
+if W["listed"]: tw.list(lambda dd: dd.ul().spot)
+fresh1 = new().of(tw)
 for i in range(d1.ul().spot.size(1)):
     if not torch.allclose(f.get(i), fresh1.get(i), equal_nan=True): bad.append(("resimulated", i))
 if not torch.allclose(f.get(None), fresh1.get(None), equal_nan=True): bad.append(("resimulated", None))
@@ -994,7 +1001,7 @@ result = {"got": [str(x) for x in bad], "ref": []}
 def _replay_feature_history(fname, und):
     r = real_exec(FEATURE_HISTORY_REPLAY, {'feature': fname, 'und': und, 'listed': FEATURES[fname][2]})
     ok = r.get('ok') and r['result']['got'] == []
-    return {'real': r, 'confirmed': not ok, 'note': 'replay: bound feature reused after re-binding / re-simulation vs fresh feature'}
+    return {'real': r, 'confirmed': not ok, 'note': 'replay: bound feature reused after re-binding / re-simulation of the stock from outside vs a fresh feature on a freshly built twin derivative'}
 
 
 # ------------------------------------------------------------------ C03: batched vs step-wise, prev_hedge
@@ -1254,8 +1261,8 @@ def c03_obligations(seed, tier='quick'):
 
 # ------------------------------------------------------------------ C01: compute_pl / compute_portfolio wiring
 
-def compute_pl_ob(which, model_kind, H, stepwise, Tc=None, clause_=False):
-    tag = '%s,%s,H=%d,%s%s' % (which, model_kind, H, 'stepwise' if stepwise else 'vectorised', ',T=%d' % Tc if Tc else ',all T')
+def compute_pl_ob(which, model_kind, H, stepwise, Tc=None, clause_=False, history=False):
+    tag = '%s,%s,H=%d,%s%s%s' % (which, model_kind, H, 'stepwise' if stepwise else 'vectorised', ',T=%d' % Tc if Tc else ',all T', ',after an earlier evaluation and an outside re-simulation' if history else '')
 
     def check():
         t0 = time.time()
@@ -1270,8 +1277,9 @@ def compute_pl_ob(which, model_kind, H, stepwise, Tc=None, clause_=False):
                 assume_positive_spot(c)
                 if H >= 2:
                     assume_positive_spot(c, 'spot2')
+                clause_fn = (lambda dd, payoff: payoff * 0.5 + 1.0)
                 if clause_:
-                    d.add_clause('knockout', lambda dd, payoff: payoff * 0.5 + 1.0)
+                    d.add_clause('knockout', clause_fn)
                 feats = ['log_moneyness', 'time_to_maturity', 'volatility'] + (['prev_hedge'] if stepwise else [])
                 hedger, _ = mk_hedger('user' if model_kind == 'contract' else model_kind, d, H, feats)
                 hl = mk_hedge_list(d, H)
@@ -1283,9 +1291,31 @@ def compute_pl_ob(which, model_kind, H, stepwise, Tc=None, clause_=False):
                     from pfv.torchlib.tensor import Tensor
                     UNIT = Tensor.input('UNIT', (N, H, T), torch.float64, origin='fresh')
                     hedger.compute_hedge = lambda derivative, hedge=None: UNIT
+                if history:
+                    # call history: everything has been evaluated once on other prices; then the shared underlier was re-simulated
+                    # from outside (its buffer replaced, as another derivative sharing the stock would do)
+                    [h_.spot for h_ in hl]
+                    getattr(hedger, which)(d, **kw)
+                    d.payoff()
+                    import torch
+                    from pfv.torchlib.tensor import Tensor
+                    d.ul().register_buffer('spot', Tensor.input('spotB', (N, T), torch.float64))
+                    assume_positive_spot(c, 'spotB')
                 unit = hedger.compute_hedge(d, **kw)
                 res = getattr(hedger, which)(d, **kw)
-                return res, unit, [h_.spot for h_ in hl], [h_.cost for h_ in hl], d.payoff()
+                # the instruments' CURRENT prices, read through freshly built twins (nothing kept on the used objects can leak in)
+                cur = []
+                for h_ in hl:
+                    if h_ is d.ul() or not hasattr(h_, 'pricer'):
+                        cur.append(h_.spot)
+                    else:
+                        tw = type(h_)(h_.ul(), strike=SReal(K))
+                        tw.list(h_.pricer, cost=h_.cost)
+                        cur.append(tw.spot)
+                d_tw = type(d)(d.ul(), call=True, strike=SReal(K))
+                if clause_:
+                    d_tw.add_clause('knockout', clause_fn)
+                return res, unit, cur, [h_.cost for h_ in hl], d_tw.payoff()
             paths = explore(run, hyps, max_paths=16)
         finally:
             _set_T(old)
@@ -1350,17 +1380,20 @@ for (prev, H, c1, c2) in [(p_, h_, a_, b_) for p_ in (False, True) for h_ in (1,
             lb = LookbackOption(und, strike=1.0, maturity=0.05); lb.list(lambda dd: dd.ul().spot * 0.4 + 0.2, cost=c2); hl.append(lb)
         feats = ["log_moneyness", "time_to_maturity"] + (["prev_hedge"] if prev else [])
         hedger = pnn.Hedger(torch.nn.Sequential(torch.nn.Linear(2 + (H if prev else 0), H), torch.nn.Tanh()), feats)
-        unit = hedger.compute_hedge(d, hedge=hl).detach()
-        for which in ("compute_pl", "compute_portfolio"):
-            got = getattr(hedger, which)(d, hedge=hl).detach()
-            ref = torch.zeros(6, dtype=unit.dtype)
-            if which == "compute_pl": ref -= d.payoff()
-            for h, inst in enumerate(hl):
-                s = inst.spot
-                for t in range(s.size(1) - 1):
-                    ref += unit[:, h, t] * (s[:, t + 1] - s[:, t]) - inst.cost * (unit[:, h, t + 1] - unit[:, h, t]).abs() * s[:, t + 1]
-                ref -= inst.cost * unit[:, h, 0].abs() * s[:, 0]
-            if not torch.allclose(got, ref, atol=1e-6): bad.append((prev, H, (c1, c2), which, float((got - ref).abs().max())))
+        for rnd in (0, 1):
+            if rnd == 1:
+                und.simulate(n_paths=6, time_horizon=0.05)        # the shared stock re-simulated from outside, after everything was evaluated once
+            unit = hedger.compute_hedge(d, hedge=hl).detach()
+            for which in ("compute_pl", "compute_portfolio"):
+                got = getattr(hedger, which)(d, hedge=hl).detach()
+                ref = torch.zeros(6, dtype=unit.dtype)
+                if which == "compute_pl": ref -= (torch.nn.functional.relu(und.spot[:, -1] - 1.02)).clamp(max=0.03) + 0.01
+                for h, inst in enumerate(hl):
+                    s = und.spot if inst is und else und.spot * 0.4 + 0.2          # current prices, computed here from the stock's current paths
+                    for t in range(s.size(1) - 1):
+                        ref += unit[:, h, t] * (s[:, t + 1] - s[:, t]) - inst.cost * (unit[:, h, t + 1] - unit[:, h, t]).abs() * s[:, t + 1]
+                    ref -= inst.cost * unit[:, h, 0].abs() * s[:, 0]
+                if not torch.allclose(got, ref, atol=1e-6): bad.append((prev, H, (c1, c2), which, "second evaluation after an outside re-simulation" if rnd else "first evaluation", float((got - ref).abs().max())))
 result = {"got": [str(b) for b in bad], "ref": []}
 '''
 
@@ -1368,7 +1401,7 @@ result = {"got": [str(b) for b in bad], "ref": []}
 def _replay_pl():
     r = real_exec(PL_REPLAY, {}, timeout=300)
     ok = r.get('ok') and r['result']['got'] == []
-    return {'real': r, 'confirmed': not ok, 'note': 'replay: compute_pl / compute_portfolio against a loop reference (H=1,2 incl. a listed derivative as hedge, a payoff clause, with/without prev_hedge, all / some / one instrument(s) with transaction costs)'}
+    return {'real': r, 'confirmed': not ok, 'note': 'replay: compute_pl / compute_portfolio against a loop reference (H=1,2 incl. a listed derivative as hedge, a payoff clause, with/without prev_hedge, all / some / one instrument(s) with transaction costs; evaluated twice, the second time after the shared stock was re-simulated from outside)'}
 
 
 def c01_obligations(seed, tier='quick'):
@@ -1381,6 +1414,8 @@ def c01_obligations(seed, tier='quick'):
         for H in (1, 2, 3):
             obs.append(compute_pl_ob(which, 'contract', H, False))
     obs.append(compute_pl_ob('compute_pl', 'user', 1, False, clause_=True))
+    obs.append(compute_pl_ob('compute_pl', 'user', 3, False, history=True))
+    obs.append(compute_pl_ob('compute_portfolio', 'contract', 3, False, history=True))
     obs.append(compute_pl_ob('compute_pl', 'linear', 2, False))
     return obs
 
